@@ -32,6 +32,32 @@ __CPROVER_loop_invariant(g_i <= g_n && g_i >= __CPROVER_loop_entry(g_i))
 __CPROVER_loop_invariant(g_k < __CPROVER_loop_entry(g_i) || g_k >= g_i || g_verdict[g_k] != 1)
 __CPROVER_decreases(g_n - g_i)'''}},
 }
+UPV = r'(const )?std::unique_ptr<(zw_)?value(, std::default_delete<(zw_)?value>)?>'
+VECV = r'std::vector<' + UPV + r'(, std::allocator<' + UPV + r'>)?>'
+SUBX_CFG = {
+    'names': {'op_subx::next': 'op_subx_next'},
+    'types': {r'(const )?std::(shared_ptr<(op|op_origin)>|__shared_ptr<(op|op_origin).*>|__shared_ptr_access<(op|op_origin).*>)': 'op *',
+              r'(const )?' + UPS: 'mstack *', UPV: 'int', VECV: 'ivec', r'stack': 'mstack', r'std::nullptr_t': 'void *',
+              r'scon': 'mscon', r'layout::loc': 'unsigned long'},
+    'types_are_records': {VECV: True, r'stack': True, r'scon': True},
+    'record_ctypes': ['ivec', 'mstack', 'mscon'],
+    'record_default': {'ivec': 'ivec_new()'},
+    'types_prelude': '#include "subx_model.h"\n',
+    'bodies_prelude': '#include "subx_model2.h"\n',
+    'virtual': {'op::next': 'op_next_model'},
+    'extern_may_raise': ['mstack_pop'],
+    'extern': {r'std::__shared_ptr_access<(op|op_origin).*>::operator->': {'c': 'PTR_ID', 'by_value': True},
+               r'(const )?' + UPS + r'::operator->': {'c': 'PTR_ID', 'by_value': True},
+               r'(const )?' + UPS + r'::operator\*': {'c': 'PTR_ID', 'by_value': True},
+               r'(const )?' + UPS + r'::operator bool': {'c': 'PTR_BOOL', 'by_value': True},
+               r'std::operator==\|.*nullptr_t\).*': {'c': 'UPTR_IS_NULL', 'by_value': True},
+               r'std::operator!=\|.*nullptr_t\).*': {'c': 'UPTR_NOT_NULL', 'by_value': True},
+               r'std::make_unique': 'mstack_clone', r'std::move': 'VERIF_MOVE',
+               r'scon::get': 'scon_get_state', r'op_origin::set_next': 'origin_set_next',
+               r'stack::pop': 'mstack_pop', r'stack::push': 'mstack_push', r'stack::size': 'MSTACK_SIZE',
+               VECV + r'::push_back': 'ivec_push_back', VECV + r'::back': 'IVEC_BACK', VECV + r'::pop_back': 'ivec_pop_back'},
+}
+SUBX_ROOTS = ['op_subx::next']
 OP_ROOTS = ['pred_not::result', 'pred_and::result', 'pred_or::result', 'op_assert::next']
 ROOTS = ['_Znt11pred_result', '_Zaa11pred_resultS_', '_Zoo11pred_resultS_']
 INPUTS = ['in_a', 'in_b', 'a']
@@ -54,6 +80,12 @@ def jobs(tier):
         J.append(Job('pred_%s_result' % nm, osrc, 'h_pred_' + nm, enforce='pred_%s_result' % nm,
                      includes=inc, timeout=300, inputs=['g_va', 'g_vb'],
                      note='operator!/&&/|| inlined here (their own contracts are the jobs not/and/or)'))
+    xsrc = [os.path.join(HERE, 'subx_harness.c'), os.path.join(OUT, 'subx_bodies.c')]
+    J.append(Job('bounded_subx_next', xsrc, 'hb_subx_next', includes=inc, kind='bounded', unwind=10, timeout=1500,
+                 cbmc_args=['--object-bits', '10'], inputs=['had_saved'],
+                 note='bounded: upstream <= 2 stacks, <= 3 yields of the sub-expression, keep <= 2, incoming depth <= 4; stacks by the abstract model'))
+    J.append(Job('subx_control', xsrc, 'hb_subx_control', includes=inc, defines=['VERIF_CONTROL'], kind='control', expect='fail',
+                 unwind=10, timeout=600, cbmc_args=['--object-bits', '10']))
     add('control', 'h_control', None, defines=['VERIF_CONTROL'], kind='control', expect='fail')
     return J
 
@@ -63,7 +95,8 @@ TRUSTED = ['tools/cxx2c.py lowering']
 ASSUMPTIONS = [
     'type invariant: a pred_result holds one of its three enumerators',
     'op_assert::next / pred_not,and,or::result: the virtual calls op::next and pred::result are modelled (props/c04/op_model.h); the model predicate does not modify the stack it is given -- whether real predicates (pred_subx_any, word predicates) do is NOT covered; destruction of rejected stacks (unique_ptr) not modelled',
-    'SLICE: sub-expression contexts (op_subx, pred_subx_any), let and capture are NOT covered',
+    'op_subx::next (bounded job): stacks, smart pointers, the state area and the virtual op::next are modelled (props/c04/subx_model*.h); deep copy of a stack is the model\'s copy',
+    'SLICE: pred_subx_any, op_bind/let, op_capture and the parser\'s desugaring of infix operators are NOT covered',
 ]
 EXPLANATION = 'Only the three-valued operator table; see DESIGN.md section 4 C04.'
 
@@ -75,7 +108,8 @@ def spec_files():
 def prepare(tier):
     lw = vlib.extract('pred', 'libzwerg/pred_result.cc', CFG, ROOTS, OUT)
     ow = vlib.extract('op', 'libzwerg/op.cc', OP_CFG, OP_ROOTS, OUT)
-    lw.report['functions'] += ow.report['functions']
+    xw = vlib.extract('subx', 'libzwerg/op.cc', SUBX_CFG, SUBX_ROOTS, OUT)
+    lw.report['functions'] += ow.report['functions'] + xw.report['functions']
     return {'unit': 'libzwerg/pred_result.hh (via pred_result.cc)', 'functions': lw.report['functions']}
 
 
